@@ -315,8 +315,8 @@ var reuseTable = []reuseSpec{
 	{"Dictionary", "postingsListInit", "PostingsList", []string{"postings"}, map[string]string{"postings": "Clear"}, false, []string{"C07", "C06"}},
 	{"PostingsList", "iterator", "PostingsIterator", []string{"freqNormReader", "locReader", "nextLocs", "nextSegmentLocs", "buf"},
 		map[string]string{"freqNormReader": "reset", "locReader": "reset"}, false, []string{"C07", "C06"}},
-	{"Thesaurus", "synonymsListInit", "SynonymsList", []string{"synonyms", "buffer"}, map[string]string{"synonyms": "Clear"}, false, []string{"C07", "C13"}},
-	{"SynonymsList", "iterator", "SynonymsIterator", nil, nil, false, []string{"C07", "C13"}},
+	{"Thesaurus", "synonymsListInit", "SynonymsList", []string{"synonyms", "buffer"}, map[string]string{"synonyms": "Clear"}, false, []string{"C07", "C13", "C12"}},
+	{"SynonymsList", "iterator", "SynonymsIterator", nil, nil, false, []string{"C07", "C13", "C12"}},
 	{"VecPostingsList", "iterator", "VecPostingsIterator", nil, nil, true, []string{"C07"}},
 }
 
@@ -324,7 +324,7 @@ func ruleR12() *Rule {
 	return &Rule{
 		ID:    "R12",
 		Title: "REUSE-RESET: a caller-supplied object is zeroed completely before reuse, except tabled buffers that are cleaned",
-		Props: []string{"C07", "C06", "C13"},
+		Props: []string{"C07", "C06", "C13", "C12"},
 		Floor: floorFor("R12"),
 		Run: func(c *RuleCtx) {
 			for i := range reuseTable {
